@@ -9,7 +9,9 @@ package c20
 
 import (
 	"fmt"
+	"os"
 	"reflect"
+	"runtime/pprof"
 	"runtime"
 		"strings"
 	"sync"
@@ -424,6 +426,11 @@ func opClass(s string) string {
 
 func TestCheck(t *testing.T) {
 	r := ev.Start("C20", "model_checking")
+	if f := os.Getenv("C20_PROF"); f != "" {
+		fh, _ := os.Create(f)
+		_ = pprof.StartCPUProfile(fh)
+		defer pprof.StopCPUProfile()
+	}
 	r.SetBudget(ev.Pick(r, 150, 1700))
 	if err := layoutOK(); err != nil {
 		r.Infra("%v", err)
@@ -490,6 +497,7 @@ func TestCheck(t *testing.T) {
 		"Immutability is measured, not assumed: deep canonical hash (reflect, unexported fields) of every chain ever published on the path is recomputed after every batch of sibling operations; culprit found by clean replay. "+
 		"Functions of view content alone (lookups, overlay reads vs dictionary model, entry vs wire) are memoised per deep content hash (purity re-checked by hashing after the reads) and cross-validated unmemoised to depth %d. "+
 		"non-trivial = distinct non-empty view contents fully evaluated", depth, len(canons)*2, x2.depth))
+	pprof.StopCPUProfile()
 	r.Assume = append(r.Assume,
 		"operation-granularity atomicity: the only shared mutable word of ChainStorage is the atomic pointer (layout asserted by reflection); immutability of everything behind it is checked by deep hashing",
 		"reader steps are read-only (checked by hashing the view after reading through it), hence all placements of a reader's 3 steps are covered by snapshotting for every h at every position and observing under every canonical variant",
